@@ -80,6 +80,75 @@ def make_long(i):
     return seed, scn
 
 
+def make_child(i):
+    """Parent executions that launch child executions (every launch form) whose own deadline, failure or slowness
+    ends them while the parent waits, times out first, or catches: parent and child must each end exactly once."""
+    from checks import c15 as C15
+    seed = common.run_seed(9000000 + i)
+    rng = random.Random(seed)
+    d = rng.choice([2, 3, 5])
+    ckind = rng.choice(["deadline-wait", "deadline-task", "deadline-parallel", "deadline-map", "ok", "fail", "slow"])
+    if ckind in C15.CHILDREN:
+        cdef = json.loads(json.dumps(C15.CHILDREN[ckind][0]))
+    elif ckind == "deadline-wait":
+        cdef = {"StartAt": "W", "States": {"W": {"Type": "Wait", "Seconds": d + rng.choice([0, 1, 4]), "Next": "P"},
+                                           "P": {"Type": "Pass", "End": True}}}
+    elif ckind == "deadline-task":
+        cdef = {"StartAt": "T", "States": {"T": {"Type": "Task", "Resource": F + "cslow", "End": True}}}
+    elif ckind == "deadline-parallel":
+        cdef = {"StartAt": "A", "States": {"A": {"Type": "Parallel", "End": True, "Branches": [
+            {"StartAt": "W", "States": {"W": {"Type": "Wait", "Seconds": d + 2, "End": True}}},
+            {"StartAt": "T", "States": {"T": {"Type": "Task", "Resource": F + "cwork", "End": True}}}]}}}
+    else:
+        cdef = {"StartAt": "A", "States": {"A": {"Type": "Map", "ItemsPath": "$.items", "MaxConcurrency": rng.choice([0, 1]),
+                                                 "End": True, "ItemProcessor": {"StartAt": "W", "States": {
+                                                     "W": {"Type": "Wait", "Seconds": d - 1, "Next": "T"},
+                                                     "T": {"Type": "Task", "Resource": F + "cwork", "End": True}}}}}}
+    if ckind.startswith("deadline") or rng.random() < 0.3:
+        cdef["TimeoutSeconds"] = d
+    form = rng.choice(["async", "sync", "sync", "sync2", "sync2", "sdk"])
+    placement = rng.choice(["top", "top", "parallel", "map"])
+    ctype = "EXPRESS" if form == "sdk" else rng.choice(["STANDARD", "STANDARD", "EXPRESS"])
+    ptype = "STANDARD" if form in ("sync", "sync2") else rng.choice(["STANDARD", "EXPRESS"])
+    ptimeout = rng.choice([None, None, d - 1, d, d + 2]) if form != "async" else None
+    pdef = C15.parent_machine(form, placement, ptimeout, rng.random() < 0.5)
+    if ckind == "deadline-map":
+        for st in _all_states(pdef):
+            if isinstance(st.get("Parameters"), dict) and "StateMachineArn" in st["Parameters"]:
+                st["Parameters"]["Input"] = {"k.$": "$.k", "items": [1, 2, 3]}
+    cfg = E.policy_cfg(rng.choice(["canonical", "shuffle", "pct", "latency-small", "ties"]))
+    cfg.update(store=rng.choice(["file", "file", "redis"]), transport=rng.choice(["asyncio", "asyncio", "blocking"]),
+               execution_ttl=rng.choice([60, 600]), nodes=1, tz=rng.choice(["UTC0", "SIM-05:30"]))
+    if cfg["store"] == "redis" and rng.random() < 0.4:
+        cfg["nodes"] = 2
+    inp = {"k": 7, "items": [1, 2]} if placement == "map" else {"k": 7}
+    script = {"cwork": [{"ok": {"op": "wrap"}, "delay": rng.choice([0.5, 2.0])}], "cwork2": [{"ok": {"op": "tag"}, "delay": 1.0}],
+              "cslow": [{"ok": {"op": "wrap"}, "delay": float(d + rng.choice([-1, 0, 1, 3]))}]}
+    n = rng.choice([1, 1, 2])
+    scn = {"machines": {"child": {"definition": cdef, "type": ctype}, "parent": {"definition": pdef, "type": ptype}},
+           "executions": [{"machine": "parent", "input": inp, "name": "p%d" % k, "at": 0.5 * k, "node": rng.randint(0, 1)}
+                          for k in range(n)],
+           "script": script, "functions": sorted(script), "config": cfg}
+    return seed, scn, "%s/%s/%s" % (form, ckind, placement)
+
+
+def _all_states(machine):
+    for st in (machine.get("States") or {}).values():
+        yield st
+        for sub in list(st.get("Branches") or []) + [st[k] for k in ("ItemProcessor", "Iterator") if isinstance(st.get(k), dict)]:
+            for x in _all_states(sub):
+                yield x
+
+
+def run_child(i, extra):
+    seed, scn, label = make_child(i)
+    r = check(scn, seed)
+    r.setdefault("probes", {})["child-launch:runs"] = 1
+    r["probes"]["child-launch:" + label.split("/")[0]] = 1
+    r["probes"]["child-kind:" + label.split("/")[1]] = 1
+    return r
+
+
 def run_long(i, extra):
     seed, scn = make_long(i)
     r = check(scn, seed)
@@ -133,6 +202,8 @@ def main(argv):
         rep.absorb(r)
     for r in common.run_batch("checks.c02", "run_long", range(600 if tier == "quick" else 20000), {"tier": tier}):
         rep.absorb(r)
+    for r in common.run_batch("checks.c02", "run_child", range(600 if tier == "quick" else 20000), {"tier": tier}):
+        rep.absorb(r)
     return rep.finish(
         rule="1-4 concurrent executions of independently generated machines (families %s) per simulated run, started "
              "through the real StartExecution handler on 1-2 engine instances, under a seeded schedule policy "
@@ -140,7 +211,7 @@ def main(argv):
              "invariants are polled after every scheduler step, and every started execution must be terminal when the "
              "run is quiescent; a second slice runs executions that last about as long as or longer than execution_ttl "
              "(Wait / slow Task / Parallel / Map, machine TimeoutSeconds below, at or above the duration; file and "
-             "Redis stores, where the stored record expires under the running execution); executions the reference model places in C06's families (several or handled branch "
+             "Redis stores, where the stored record expires under the running execution); a third slice starts parents that launch child executions in every launch form (async, .sync, .sync:2, aws-sdk startSyncExecution; top level, in a Parallel branch, in a Map iterator) whose children end by their own TimeoutSeconds inside a Wait / slow Task / Parallel / Map, fail, or outlive the parent's Task time-out - parent and child alike must end exactly once; executions the reference model places in C06's families (several or handled branch "
              "failures, nested failures) are regenerated; distinct = distinct (scenario, interleaving) hashes" % (
                  sorted(set(FAMILIES)), ", ".join(POLICIES)),
         assumptions=["no faults injected (crash/restart is C04)", "file store with one instance, Redis store with 1-2 instances, both transports", "legal schedules only: per-queue FIFO, timers never early"])
